@@ -158,9 +158,29 @@ def chain_task(r):
     return rs, [sl.Input(data, parts), sl.Input(data), sl.Input(data[::-1] + b"hello")]
 
 
+def fullword_task(r):
+    """`fullword` strings ending exactly at the end of a block whose successor starts with a letter, or starting at the start of a block
+    whose predecessor ends with one: inside one buffer these are not whole words, at a block boundary they are (the block ends are
+    delimiters; nothing beyond the block may be looked at)"""
+    w = r.choice([b"hello", b"world"])
+    pieces = [c10.rand_text(r, False), b" " + w, r.choice([b"Xy", b"z9 ", b"w"]) + w + b" ", c10.rand_text(r, False), b" " + w]
+    data = b"".join(pieces)
+    c1 = len(pieces[0]) + len(pieces[1])                       # right after the first word, the next byte is alphanumeric
+    c2 = c1 + len(pieces[2]) - len(w) - 1                      # right before the second word, the previous byte is alphanumeric
+    cuts = sorted(set(r.sample([c1, c1, c2, len(data) - len(w)], r.randint(1, 2))) - {0, len(data)})
+    parts = [y - x for x, y in zip([0] + cuts, cuts + [len(data)])]
+    rules = [dict(ns=0, flags="", strings=[sl.Fullword(w)], cond=r.choice([("str", 0), ("cnt", 0, 2)])),
+             dict(ns=0, flags="", strings=[sl.Fullword(sl.Rx(w[:2].decode() + "[a-z]+"))], cond=("str", 1)),
+             dict(ns=0, flags="", strings=[w], cond=("cnt", 2, 3))]
+    return sl.RuleSet(rules, []), [sl.Input(data, parts), sl.Input(data), sl.Input(b"other " + data[::-1])]
+
+
 def gen_tasks(r, tier):
     tasks = []       # (kind, ruleset, inputs, flags, extra field)
     nep, nblk, nev, npl = (40, 70, 10, 60) if tier == "quick" else (1500, 3000, 350, 2500)
+    for _ in range(20 if tier == "quick" else 600):      # fullword strings at block boundaries
+        rs, ins = fullword_task(r)
+        tasks.append(("fullword", rs, ins, r.choice(c10.FLAGS), "masks=0:%d:1:2" % min(len(ins[0].parts) + 1, 4)))
     for _ in range(25 if tier == "quick" else 800):      # chained strings and block boundaries
         rs, ins = chain_task(r)
         tasks.append(("chain", rs, ins, r.choice(c10.FLAGS), "masks=0:%d:1:2" % min(len(ins[0].parts) + 1, 5)))
@@ -168,7 +188,8 @@ def gen_tasks(r, tier):
         ins = gen_inputs(r)
         i = r.randrange(len(ins))
         scripts = ["-"] + r.sample(["a0", "a1", "a2", "a5", "a9", "e0", "e1", "e2", "e3", "e6", "e12"], 3)
-        tasks.append(("ep", ep_rules(r, ins[i]), [ins[i]], r.choice(c10.ALLFLAGS), "ep=0 cbs=" + ",".join(scripts)))
+        fl = r.choice(c10.ALLFLAGS + [2, 2, 10, 18, 3])     # often SCAN_FLAGS_PROCESS_MEMORY: entry points differ between file and memory mode
+        tasks.append(("ep", ep_rules(r, ins[i]), [ins[i]], fl, "ep=0 cbs=" + ",".join(scripts)))
     for _ in range(nblk):          # the whole block loop, <= 6 blocks, full rule sets
         pool = c10.gen_pool(r)
         chained = r.random() < 0.35
@@ -253,8 +274,24 @@ def run_body(chk, lres, b, tier, replay, scratch):
     env = {"ASAN_OPTIONS": "detect_leaks=0:abort_on_error=0:exitcode=99", "VF_SCRATCH": scratch}
     impl, rc, err = core.run_parallel([b["h_entry"]], lines, env=env, timeout=2400)
     if rc != 0 or len(impl) != len(lines):
-        chk.violation("harness_crash.json", {"kind": "harness-crash-or-sanitizer", "rc": rc, "stderr": err, "engine": "entry",
-                                              "harness": "h_entry", "cases": lines[:10]})
+        # find a task that kills the harness on its own (concrete replay); survivors of the dead batches are run one by one
+        done = {l.split(" ", 1)[0] for l in impl}
+        missing = [l for l in lines if l.split(" ", 1)[0] not in done]
+        culprit = None
+        for l in missing[:60]:
+            o1, rc1, err1 = core.run_lines([b["h_entry"]], [l], timeout=600, env=env)
+            if rc1 != 0 or not o1:
+                if culprit is None:
+                    culprit = (l, rc1, err1)
+            else:
+                impl.append(o1[0])
+        obj = {"kind": "harness-crash-or-sanitizer", "rc": rc, "stderr": err, "engine": "entry", "harness": "h_entry"}
+        if culprit:
+            obj.update({"case": culprit[0], "task": kinds.get(culprit[0].split(" ", 1)[0]), "rc": culprit[1], "stderr": culprit[2],
+                        "note": "this task alone makes the harness die (sanitizer report / crash in libyara)"})
+        else:
+            obj["cases"] = missing[:10]
+        chk.violation("harness_crash.json", obj)
         found = True
     model = []
     if lres.get("driver_ok"):
@@ -275,7 +312,9 @@ def run_body(chk, lres, b, tier, replay, scratch):
         base = {"engine": "entry", "harness": "h_entry", "case": l, "task": kinds.get(cid)}
         if a.startswith("E "):
             names = ["rules_scan_mem", "rules_scan_file", "rules_scan_fd", "scanner_scan_mem", "scanner_scan_file", "scanner_scan_fd",
-                     "scanner_scan_mem_blocks(single block)", "rules_scan_mem_blocks(single block)"]
+                     "scanner_scan_mem_blocks(single block)", "rules_scan_mem_blocks(single block)",
+                     "scanner_scan_mem after scan_proc on the same scanner", "rules_scan_mem(exact-size heap buffer)",
+                     "rules_scan_mem(buffer followed by letters)"]
             stats["entry_point_tasks"] += 1
             msec = {x.split("=", 1)[0]: x.split("=", 1)[1] for x in m[2:].split("^")} if m is not None and m.startswith("E ") else None
             for sec in a[2:].split("^"):
@@ -310,7 +349,7 @@ def run_body(chk, lres, b, tier, replay, scratch):
                                                            implementation=dict(zip(names, trs)))); nv += 1; found = True
                 elif msec is not None and nv < 10:
                     mt = msec.get(script, "|").split("|")
-                    exp = [mt[0], mt[1], mt[1], mt[0], mt[1], mt[1], mt[0], mt[0]]
+                    exp = [mt[0], mt[1], mt[1], mt[0], mt[1], mt[1], mt[0], mt[0], mt[0], mt[0], mt[0]]
                     if exp != trs:
                         chk.violation("epm_%s_%s.json" % (cid, script), dict(base, kind="model-implementation-disagreement (entry points)", callback_script=script,
                                                                 implementation=sec, model_spec=msec.get(script))); nv += 1; found = True
